@@ -482,4 +482,162 @@ theorem inv_allocate {lo hi : Nat} {g : G} {st : St} (hI : Inv lo hi g st) {debu
     simp only [regSum] at hle ⊢
     omega
 
+/-! ### `free_all_chunks` -/
+
+/-- First loop of `free_all_chunks(c)`: it frees the regions after `c` in `c`'s list. -/
+theorem freeAll_next_loop {lo hi c : Nat} {debug : Bool} : ∀ (fuel : Nat) {g : G} {st : St} (l1 l2 : List Nat),
+    Inv lo hi g st → (l1 ++ c :: l2) ∈ g.lists → l2.length ≤ fuel →
+    ∃ st1, freeAllLoop debug (fun s x => s.next x) fuel st c = some st1 ∧
+      Inv lo hi (g.freeSet l2) st1 ∧ (l1 ++ [c]) ∈ (g.freeSet l2).lists
+  | 0, g, st, l1, l2, hI, hmem, hlen => by
+    have : l2 = [] := List.eq_nil_of_length_eq_zero (Nat.le_zero.1 hlen)
+    subst this
+    exact ⟨st, rfl, by rw [G.freeSet_nil]; exact hI, by rw [G.freeSet_nil]; exact hmem⟩
+  | fuel + 1, g, st, l1, l2, hI, hmem, hlen => by
+    have hlk := hI.links_exact.2.2.1 _ hmem
+    have hnext : st.next c = l2.headD 0 := (Linked.suffix hlk).2.1
+    cases l2 with
+    | nil =>
+      refine ⟨st, ?_, by rw [G.freeSet_nil]; exact hI, by rw [G.freeSet_nil]; exact hmem⟩
+      rw [freeAllLoop]; simp [hnext]
+    | cons b t2 =>
+      have hbf : b ∈ g.lists.flatten := List.mem_flatten.2 ⟨_, hmem, by simp⟩
+      have hb0 : b ≠ 0 := fun e => hI.zero_not_mem (e ▸ hbf)
+      obtain ⟨rb, hrb, hrbs⟩ := (hI.links_exact.2.1 b).1 hbf
+      subst hrbs
+      obtain ⟨st', n, hfree⟩ := freeNoLock_isSome hI hrb debug
+      have hI' := (inv_free hI hrb hfree).2
+      have hnd := nodup_of_mem_flatten hI.links_exact.1 hmem
+      have hmem' : l1 ++ c :: t2 ∈ (g.free rb.start).lists := by
+        rw [G.free_lists, List.mem_map]
+        refine ⟨_, hmem, ?_⟩
+        have e : l1 ++ c :: rb.start :: t2 = (l1 ++ [c]) ++ rb.start :: t2 := by simp
+        rw [e] at hnd ⊢
+        rw [filter_ne_of_nodup hnd]; simp
+      obtain ⟨st1, h1, hI1, hm1⟩ := freeAll_next_loop (debug := debug) fuel l1 t2 hI' hmem'
+        (by simpa using hlen)
+      rw [G.free, G.freeSet_freeSet] at hI1 hm1
+      refine ⟨st1, ?_, hI1, hm1⟩
+      rw [freeAllLoop]
+      simp only [hnext, List.headD_cons, bne_iff_ne, ne_eq, hb0, not_false_eq_true, if_true, hfree]
+      exact h1
+
+/-- Second loop of `free_all_chunks(c)`: it frees the regions before `c` in `c`'s list (nearest first). -/
+theorem freeAll_prev_loop {lo hi c : Nat} {debug : Bool} : ∀ (fuel : Nat) {g : G} {st : St} (l1r l2 : List Nat),
+    Inv lo hi g st → (l1r.reverse ++ c :: l2) ∈ g.lists → l1r.length ≤ fuel →
+    ∃ st1, freeAllLoop debug (fun s x => s.prev x) fuel st c = some st1 ∧
+      Inv lo hi (g.freeSet l1r) st1 ∧ (c :: l2) ∈ (g.freeSet l1r).lists
+  | 0, g, st, l1r, l2, hI, hmem, hlen => by
+    have : l1r = [] := List.eq_nil_of_length_eq_zero (Nat.le_zero.1 hlen)
+    subst this
+    exact ⟨st, rfl, by rw [G.freeSet_nil]; exact hI, by rw [G.freeSet_nil]; simpa using hmem⟩
+  | fuel + 1, g, st, l1r, l2, hI, hmem, hlen => by
+    have hlk := hI.links_exact.2.2.1 _ hmem
+    have hprev : st.prev c = l1r.head?.getD 0 := by
+      have := (Linked.suffix hlk).1
+      rw [List.getLast?_reverse] at this; exact this
+    cases l1r with
+    | nil =>
+      refine ⟨st, ?_, by rw [G.freeSet_nil]; exact hI, by rw [G.freeSet_nil]; simpa using hmem⟩
+      rw [freeAllLoop]; simp [hprev]
+    | cons b t1 =>
+      have hbf : b ∈ g.lists.flatten := List.mem_flatten.2 ⟨_, hmem, by simp⟩
+      have hb0 : b ≠ 0 := fun e => hI.zero_not_mem (e ▸ hbf)
+      obtain ⟨rb, hrb, hrbs⟩ := (hI.links_exact.2.1 b).1 hbf
+      subst hrbs
+      obtain ⟨st', n, hfree⟩ := freeNoLock_isSome hI hrb debug
+      have hI' := (inv_free hI hrb hfree).2
+      have hnd := nodup_of_mem_flatten hI.links_exact.1 hmem
+      have hmem' : t1.reverse ++ c :: l2 ∈ (g.free rb.start).lists := by
+        rw [G.free_lists, List.mem_map]
+        refine ⟨_, hmem, ?_⟩
+        have e : (rb.start :: t1).reverse ++ c :: l2 = t1.reverse ++ rb.start :: (c :: l2) := by simp
+        rw [e] at hnd ⊢
+        rw [filter_ne_of_nodup hnd]
+      obtain ⟨st1, h1, hI1, hm1⟩ := freeAll_prev_loop (debug := debug) fuel t1 l2 hI' hmem'
+        (by simpa using hlen)
+      rw [G.free, G.freeSet_freeSet] at hI1 hm1
+      refine ⟨st1, ?_, hI1, hm1⟩
+      rw [freeAllLoop]
+      simp only [hprev, List.head?_cons, Option.getD_some, bne_iff_ne, ne_eq, hb0, not_false_eq_true,
+        if_true, hfree]
+      exact h1
+
+/-- `g.freeAll c` frees the list that contains `c`. -/
+theorem G.freeAll_eq {lo hi : Nat} {g : G} {st : St} (hI : Inv lo hi g st) {c : Nat} {l : List Nat}
+    (hl : l ∈ g.lists) (hc : c ∈ l) : g.freeAll c = g.freeSet l := by
+  unfold G.freeAll
+  cases hf : g.lists.find? (fun l => l.contains c) with
+  | none =>
+    rw [List.find?_eq_none] at hf
+    have := hf l hl
+    simp [hc] at this
+  | some l' =>
+    have hl' := List.mem_of_find?_eq_some hf
+    have hc' : c ∈ l' := by simpa using List.find?_some hf
+    have : l' = l := by
+      apply Classical.byContradiction
+      intro hne
+      exact disjoint_of_nodup_flatten hI.links_exact.1 hl' hl hne hc' hc
+    rw [this]; rfl
+
+theorem G.freeAll_zero {lo hi : Nat} {g : G} {st : St} (hI : Inv lo hi g st) : g.freeAll 0 = g := by
+  unfold G.freeAll
+  cases hf : g.lists.find? (fun l => l.contains 0) with
+  | none => exact G.freeSet_nil g
+  | some l' =>
+    have hl' := List.mem_of_find?_eq_some hf
+    have hc' : 0 ∈ l' := by simpa using List.find?_some hf
+    exact absurd (List.mem_flatten.2 ⟨l', hl', hc'⟩) hI.zero_not_mem
+
+/-- `free_all_chunks(c)` (`c = 0`, or `c` in a list of at most `fuel + 1` regions) does not hit an
+assertion and re-establishes the invariant for the bookkeeping without the whole list of `c`. -/
+theorem freeAll_spec {lo hi : Nat} {g : G} {st : St} (hI : Inv lo hi g st) {debug : Bool} {c fuel : Nat}
+    (hc : c = 0 ∨ ∃ l ∈ g.lists, c ∈ l ∧ l.length ≤ fuel + 1) :
+    ∃ st', freeAll debug st c fuel = some st' ∧ Inv lo hi (g.freeAll c) st' := by
+  by_cases hc0 : c = 0
+  · subst hc0
+    exact ⟨st, by simp [freeAll], by rw [G.freeAll_zero hI]; exact hI⟩
+  rcases hc with e | ⟨l, hl, hcl, hlen⟩
+  · exact absurd e hc0
+  obtain ⟨l1, l2, rfl⟩ := List.append_of_mem hcl
+  have hlen' : l1.length + l2.length ≤ fuel := by
+    simp only [List.length_append, List.length_cons] at hlen; omega
+  obtain ⟨st1, h1, hI1, hm1⟩ := freeAll_next_loop (debug := debug) fuel l1 l2 hI hl (by omega)
+  obtain ⟨st2, h2, hI2, hm2⟩ := freeAll_prev_loop (debug := debug) fuel l1.reverse [] hI1
+    (by rw [List.reverse_reverse]; exact hm1) (by rw [List.length_reverse]; omega)
+  have hcf : c ∈ ((g.freeSet l2).freeSet l1.reverse).lists.flatten :=
+    List.mem_flatten.2 ⟨_, hm2, List.mem_cons_self ..⟩
+  obtain ⟨rc, hrc, hrcs⟩ := (hI2.links_exact.2.1 c).1 hcf
+  subst hrcs
+  obtain ⟨st3, n, h3⟩ := freeNoLock_isSome hI2 hrc debug
+  have hI3 := (inv_free hI2 hrc h3).2
+  refine ⟨st3, ?_, ?_⟩
+  · unfold freeAll
+    have : (rc.start == 0) = false := by simpa using hc0
+    simp only [this, Bool.false_eq_true, if_false, h1, h2, h3, Option.map_some]
+  · rw [G.freeAll_eq hI hl hcl]
+    rw [G.free, G.freeSet_freeSet, G.freeSet_freeSet] at hI3
+    rw [G.freeSet_congr g (S := l1 ++ rc.start :: l2) (T := l2 ++ (l1.reverse ++ [rc.start]))]
+    · exact hI3
+    · intro x; simp only [List.mem_append, List.mem_cons, List.mem_reverse, List.not_mem_nil, or_false]
+      constructor
+      · rintro (h | h | h)
+        · exact Or.inr (Or.inl h)
+        · exact Or.inr (Or.inr h)
+        · exact Or.inl h
+      · rintro (h | h | h)
+        · exact Or.inr (Or.inr h)
+        · exact Or.inl h
+        · exact Or.inr (Or.inl h)
+
+/-- **Preservation by `free_all_chunks(c)`**. -/
+theorem inv_freeAll {lo hi : Nat} {g : G} {st : St} (hI : Inv lo hi g st) {debug : Bool} {c fuel : Nat}
+    (hc : c = 0 ∨ ∃ l ∈ g.lists, c ∈ l ∧ l.length ≤ fuel + 1) {st' : St}
+    (h : freeAll debug st c fuel = some st') : Inv lo hi (g.freeAll c) st' := by
+  obtain ⟨st'', h', hI'⟩ := freeAll_spec hI (debug := debug) hc
+  rw [h] at h'
+  cases h'
+  exact hI'
+
 end Mmtk.Map32
